@@ -114,6 +114,7 @@ def entry_points(rng):
         np.random.seed(3)
         return gromov_hausdorff(a, b)
     add("gromov_hausdorff", gh, lambda: (np.array([[0, 1, 0, 1], [1, 0, 1, 0], [0, 1, 0, 1], [1, 0, 1, 0]]), np.array([[0, 1, 1], [1, 0, 1], [1, 1, 0]])))
+    add("gromov_hausdorff(self-loops, dense)", gh, lambda: (np.array([[1, 1, 0, 1], [1, 0, 1, 0], [0, 1, 1, 1], [1, 0, 1, 0]]), np.array([[0, 1, 1], [1, 1, 1], [1, 1, 0]])))
     add("gromov_hausdorff(disconnected)", gh, lambda: (np.array([[0, 1, 0, 0], [1, 0, 0, 0], [0, 0, 0, 1], [0, 0, 1, 0]]), np.array([[0, 1], [1, 0]])))
 
     def mk_imager(weight="persistence", wp=None, kp=None):
@@ -139,6 +140,8 @@ def entry_points(rng):
     add("imager.plot_diagram", plot_dg, lambda: (dg(),))
     add("PersImage.transform", lambda a: PersImage(pixels=(4, 4), verbose=False).transform(a), lambda: (dg(),))
     add("kernels.gaussian", lambda x, y: ik.gaussian(x, y, mu=np.array([0.5, 0.5]), sigma=np.array([[1.0, 0.3], [0.3, 2.0]])), lambda: (np.linspace(-1, 2, 5), np.linspace(0, 3, 5)))
+    for rr in (0.97, 0.8, -0.95):     # strongly correlated kernels interleaved with each other and with everything else
+        add("kernels.gaussian(r=%s)" % rr, (lambda x, y, rr=rr: ik.gaussian(x, y, mu=np.array([0.5, 0.5]), sigma=np.array([[1.0, rr * np.sqrt(2.0)], [rr * np.sqrt(2.0), 2.0]]))), lambda: (np.linspace(-1, 2, 5), np.linspace(0, 3, 5)))
     add("kernels.uniform", lambda x, y: ik.uniform(x, y, mu=np.array([0.5, 0.5]), width=1.0, height=2.0), lambda: (np.linspace(-1, 2, 5), np.linspace(0, 3, 5)))
     add("weights.linear_ramp", lambda b, p: iw.linear_ramp(b, p, low=0.0, high=1.0, start=0.0, end=3.5), lambda: (lambda D: (D[:, 0], D[:, 1]))(dg()))
     add("weights.persistence", lambda b, p: iw.persistence(b, p, n=2.0), lambda: (lambda D: (D[:, 0], D[:, 1]))(dg().astype(float)))
